@@ -4,8 +4,11 @@ import (
 	"bytes"
 	"encoding/json"
 	"fmt"
+	"os"
 	"sort"
 	"strings"
+
+	xsha3 "golang.org/x/crypto/sha3"
 
 	"com.tuntun.rangers/node/src/common"
 	"com.tuntun.rangers/node/src/middleware/db"
@@ -14,6 +17,14 @@ import (
 )
 
 // ---- independent reference: Yellow Paper appendix D, computed from the final content only ----
+
+// refKeccak is Keccak-256 from golang.org/x/crypto — NOT the repository's common/sha3 the trie
+// hashes with: a regression in the code under test must not move the oracle with it.
+func refKeccak(x []byte) []byte {
+	h := xsha3.NewLegacyKeccak256()
+	h.Write(x)
+	return h.Sum(nil)
+}
 
 type kv struct {
 	k []byte // nibbles, no terminator
@@ -105,12 +116,12 @@ func ypN(J []kv, i int) []byte {
 	if len(c) < 32 {
 		return c
 	}
-	return rlpStr(keccak(c))
+	return rlpStr(refKeccak(c))
 }
 
 func ypRoot(m map[string][]byte) []byte {
 	if len(m) == 0 {
-		return keccak([]byte{0x80})
+		return refKeccak([]byte{0x80})
 	}
 	var J []kv
 	for k, v := range m {
@@ -121,7 +132,7 @@ func ypRoot(m map[string][]byte) []byte {
 		J = append(J, kv{nib, v})
 	}
 	sort.Slice(J, func(a, b int) bool { return bytes.Compare(J[a].k, J[b].k) < 0 })
-	return keccak(ypC(J, 0))
+	return refKeccak(ypC(J, 0))
 }
 
 // ---- the oracle ----
@@ -132,23 +143,49 @@ type finding struct {
 	Replay map[string]interface{} `json:"replay"`
 }
 
-// oracle executes the history on a fresh implementation, tracking the expected
-// content (last write per key; empty write or delete removes), and evaluates the
-// property: reads, root vs. reference, iteration. Returns "" if it holds.
+func copyMap(m map[string][]byte) map[string][]byte {
+	c := make(map[string][]byte, len(m))
+	for k, v := range m {
+		c[k] = v
+	}
+	return c
+}
+
+// oracle executes the history on a fresh implementation, tracking the expected content (last
+// write per key; empty write or delete removes) of the working trie and of every retained trie
+// object (snap), and evaluates the property: reads, every reported root against the independent
+// reference, iteration, retained objects. Order-only iteration findings are "soft": execution
+// continues, so that a recorded known finding cannot hide a different violation later in the
+// same history. Returns "" if the property holds.
 func oracle(ops []string) (key, desc string) {
+	soft := ""
 	res := hx.Guard(func() string {
 		m := newImpl()
 		want := map[string][]byte{}
-		checkRoot := func(got string, at string) string {
-			exp := hx.Hex(ypRoot(want))
+		var snapWant []map[string][]byte
+		checkRootOf := func(got string, w map[string][]byte, at string) string {
+			exp := hx.Hex(ypRoot(w))
 			if got != exp {
 				return "root-not-canonical|" + at + ": root " + got + " but the Merkle-Patricia root of the content is " + exp
 			}
 			return ""
 		}
+		iterRes := func(e string, at string) string {
+			if e == "" {
+				return ""
+			}
+			if strings.HasPrefix(e, "iter-order") {
+				if soft == "" {
+					soft = e + " (" + at + ")"
+				}
+				return ""
+			}
+			return e + " (" + at + ")"
+		}
 		for i, l := range ops {
 			w := strings.Fields(l)
 			ans := m.exec(l)
+			at := "op " + fmt.Sprint(i) + " " + l
 			switch w[0] {
 			case "upd":
 				k, _ := hx.UnHex(w[1])
@@ -159,13 +196,13 @@ func oracle(ops []string) (key, desc string) {
 					want[string(k)] = v
 				}
 				if ans != "ok" {
-					return "op-failed|op " + fmt.Sprint(i) + " " + l + " answered " + ans
+					return "op-failed|" + at + " answered " + ans
 				}
 			case "del":
 				k, _ := hx.UnHex(w[1])
 				delete(want, string(k))
 				if ans != "ok" {
-					return "op-failed|op " + fmt.Sprint(i) + " " + l + " answered " + ans
+					return "op-failed|" + at + " answered " + ans
 				}
 			case "get":
 				k, _ := hx.UnHex(w[1])
@@ -174,25 +211,60 @@ func oracle(ops []string) (key, desc string) {
 					exp = "v=" + hx.Hex(v)
 				}
 				if ans != exp {
-					return "read-mismatch|op " + fmt.Sprint(i) + " " + l + " answered " + ans + " want " + exp
+					return "read-mismatch|" + at + " answered " + ans + " want " + exp
 				}
 			case "hash", "commit", "reopen", "dbcommit":
-				if e := checkRoot(ans, "op "+fmt.Sprint(i)+" "+l); e != "" {
+				if e := checkRootOf(ans, want, at); e != "" {
 					return e
+				}
+			case "snap":
+				if e := checkRootOf(ans, want, at); e != "" {
+					return e
+				}
+				snapWant = append(snapWant, copyMap(want))
+			case "fork":
+				snapWant = append(snapWant, copyMap(want))
+			case "sget", "shash", "sshape":
+				var idx int
+				fmt.Sscan(w[1], &idx)
+				if idx >= len(snapWant) {
+					break // out of range: bad-op on both sides
+				}
+				switch w[0] {
+				case "shash":
+					if e := checkRootOf(ans, snapWant[idx], at); e != "" {
+						return "retained-trie-changed|" + e[strings.IndexByte(e, '|')+1:]
+					}
+				case "sget":
+					k, _ := hx.UnHex(w[2])
+					exp := "absent"
+					if v, ok := snapWant[idx][string(k)]; ok {
+						exp = "v=" + hx.Hex(v)
+					}
+					if ans != exp {
+						return "retained-trie-changed|" + at + " answered " + ans + " want " + exp
+					}
+				}
+			case "badopen":
+				if ans != "err-missing-node" {
+					hb, _ := hx.UnHex(w[1])
+					if !(ans == "opened" && (bytes.Equal(hb, make([]byte, 32)) || hx.Hex(hb) == hx.Hex(ypRoot(map[string][]byte{})))) {
+						return "bad-open-accepted|" + at + " answered " + ans
+					}
 				}
 			case "cachelimit", "new":
 				if ans != "ok" {
-					return "op-failed|op " + fmt.Sprint(i) + " " + l + " answered " + ans
+					return "op-failed|" + at + " answered " + ans
 				}
 			case "iter":
-				if e := checkIter(ans, want, w[1]); e != "" {
-					return e + " (op " + fmt.Sprint(i) + " " + l + ")"
+				if e := iterRes(checkIter(ans, want, w[1]), at); e != "" {
+					return e
 				}
 			}
 		}
 		// final state: root (vs reference and vs a from-scratch sorted build), all reads, full iteration
 		h := m.t.Hash()
-		if e := checkRoot(hx.Hex(h[:]), "final"); e != "" {
+		if e := checkRootOf(hx.Hex(h[:]), want, "final"); e != "" {
 			return e
 		}
 		disk, _ := db.NewMemDatabase()
@@ -214,11 +286,27 @@ func oracle(ops []string) (key, desc string) {
 				return "read-mismatch|final get " + hx.Hex([]byte(k)) + " = " + hx.Hex(v) + " want " + hx.Hex(want[k])
 			}
 		}
-		if e := checkIter(m.exec("iter -"), want, "-"); e != "" {
-			return e + " (final iteration)"
+		if e := iterRes(checkIter(m.exec("iter -"), want, "-"), "final iteration"); e != "" {
+			return e
+		}
+		// retention: every retained trie object still stands for the content it had when it was retained
+		for i, sw := range snapWant {
+			sh := m.snaps[i].Hash()
+			if e := checkRootOf(hx.Hex(sh[:]), sw, "retained trie "+fmt.Sprint(i)+" at the end"); e != "" {
+				return "retained-trie-changed|" + e[strings.IndexByte(e, '|')+1:]
+			}
+			for k, v := range sw {
+				got, err := m.snaps[i].TryGet([]byte(k))
+				if err != nil || !bytes.Equal(got, v) {
+					return "retained-trie-changed|retained trie " + fmt.Sprint(i) + " reads " + hx.Hex(got) + " for " + hx.Hex([]byte(k)) + ", had " + hx.Hex(v)
+				}
+			}
 		}
 		return ""
 	})
+	if res == "" {
+		res = soft
+	}
 	if res == "" {
 		return "", ""
 	}
@@ -306,6 +394,10 @@ func runSearch(a map[string]string) {
 			_, desc = oracle(min)
 		}
 		found[key] = finding{Key: key, Desc: desc, Replay: map[string]interface{}{"ops": min, "how": "harness/bin/c02 mode=replay file=<ops, one per line>"}}
+		// print at once: a time-boxed or crashing run must not lose what it already found
+		b, _ := json.Marshal(found[key])
+		fmt.Println("FOUND " + string(b))
+		os.Stdout.Sync()
 	}
 	// directed: hand-written histories (incl. hints passed by the check: hint=<file>)
 	if f := a["hint"]; f != "" {
@@ -313,6 +405,73 @@ func runSearch(a map[string]string) {
 	}
 	for _, h := range directed() {
 		try(h)
+	}
+	// deterministic boundary families before anything random
+	for _, h := range boundaryHistories(r.Fork(), thorough) {
+		try(h)
+	}
+	report := func(key, desc string, replay map[string]interface{}) {
+		if key == "" {
+			return
+		}
+		if _, ok := found[key]; ok {
+			return
+		}
+		found[key] = finding{Key: key, Desc: desc, Replay: replay}
+		b, _ := json.Marshal(found[key])
+		fmt.Println("FOUND " + string(b))
+		os.Stdout.Sync()
+	}
+	// write faults: for a few small tries, EVERY position of the failing disk write (each Put of the
+	// batch and the final Write), found by a dry run that counts the writes
+	nf := 0
+	nseeds := 4
+	if thorough {
+		nseeds = 40
+	}
+	for s := 0; s < nseeds; s++ {
+		seed := r.U64()
+		_, _, total := faultScenarioN(hx.NewRng(seed), -1)
+		for k := 1; k <= total; k++ {
+			evals++
+			nf++
+			key, desc := faultScenario(hx.NewRng(seed), k)
+			report(key, desc, map[string]interface{}{"scenario": "write-fault", "fail_at": k, "of": total, "seed": seed, "how": "harness/bin/c02 mode=search (seeded)"})
+		}
+	}
+	// concurrency (evidence, not proof): tries on one NodeDatabase from several goroutines
+	conc := map[string]interface{}{"workers": 8, "rounds": 0, "race_detector": a["race"] == "1"}
+	for k := 0; k < hx.ArgInt(a, "conc", 6); k++ {
+		evals += 8 * 300
+		seed := r.U64()
+		key, desc := concScenario(seed, 8)
+		report(key, desc, map[string]interface{}{"scenario": "concurrency", "workers": 8, "seed": seed})
+		conc["rounds"] = k + 1
+	}
+	// process-local history: the same histories are answered early in the process and again after
+	// everything else has run (hasher pool, caches, singletons warmed and reused by thousands of
+	// other tries, rejected opens, injected faults); the answers must be identical
+	type early struct {
+		ops []string
+		ans []string
+	}
+	var earlies []early
+	answers := func(ops []string) []string {
+		m := newImpl()
+		var out []string
+		for _, l := range ops {
+			out = append(out, hx.Guard(func() string { return m.exec(l) }))
+		}
+		return out
+	}
+	for i := 0; i < 25; i++ {
+		g := newGen(r.Fork(), false)
+		var ops []string
+		for j := 0; j < 60; j++ {
+			ops = append(ops, g.op())
+		}
+		ops = append(ops, "hash", "iter -", "shape")
+		earlies = append(earlies, early{ops, answers(ops)})
 	}
 	// small alphabet, random sequences
 	alpha := smallAlphabet()
@@ -335,6 +494,17 @@ func runSearch(a map[string]string) {
 		}
 		try(ops)
 	}
+	for _, e := range earlies {
+		evals += len(e.ops)
+		late := answers(e.ops)
+		for i := range late {
+			if late[i] != e.ans[i] {
+				report("process-history-dependent", fmt.Sprintf("op %d %q answered %q early in the process and %q after other work", i, e.ops[i], e.ans[i], late[i]),
+					map[string]interface{}{"ops": e.ops})
+				break
+			}
+		}
+	}
 	var vs []finding
 	keys := make([]string, 0, len(found))
 	for k := range found {
@@ -344,7 +514,8 @@ func runSearch(a map[string]string) {
 	for _, k := range keys {
 		vs = append(vs, found[k])
 	}
-	out := map[string]interface{}{"evaluations": evals, "distinct_nontrivial": len(distinct), "violations": vs, "samples": samples}
+	out := map[string]interface{}{"evaluations": evals, "distinct_nontrivial": len(distinct), "violations": vs, "samples": samples,
+		"concurrency_evidence_not_proof": conc, "write_fault_scenarios": nf}
 	b, _ := json.Marshal(out)
 	fmt.Println("SEARCH " + string(b))
 }
